@@ -49,8 +49,9 @@ OPTIONS = {"title": "fixture", "run_command": "app.driver", "threshold": {"label
 PNG = np.array([[0, 60, 120], [180, 240, 30], [90, 150, 210], [10, 20, 250]], dtype="uint8")
 
 UNREADABLE = {
-    "UnknownData": "primitive type INVALID: Workspace.create_data picks the abstract NumericData when the file is "
-    "read back, so a file holding an UnknownData cannot be opened by geoh5py",
+    "UnknownData": "a file holding an UnknownData still cannot be opened by geoh5py: since 71bc550 Workspace.create_data "
+    "picks UnknownData (no longer the abstract NumericData), but UnknownData.__init__(data_type, association, name, uid) "
+    "does not accept the attributes read from the file (TypeError: unexpected keyword argument 'Allow delete')",
 }
 EXTRA = ("PropertyGroup",)
 # receiver class -> (complement class, link attribute set on the receiver)
